@@ -88,7 +88,14 @@ impl From<AbsoluteTime> for DateTime<Utc> {
 
 impl Debug for AbsoluteTime {
     fn fmt(&self, f: &mut Formatter<'_>) -> std::fmt::Result {
-        write!(f, "{}", humantime::format_rfc3339(self.0))
+        // RFC3339 formatting panics for times before the UNIX epoch and fails after year 9999
+        const MAX_RFC3339_SECS: u64 = 253_402_300_800;
+        match self.0.duration_since(SystemTime::UNIX_EPOCH) {
+            Ok(duration) if duration.as_secs() < MAX_RFC3339_SECS => {
+                write!(f, "{}", humantime::format_rfc3339(self.0))
+            }
+            _ => write!(f, "{:?}", self.0),
+        }
     }
 }
 
